@@ -293,6 +293,9 @@ macro_rules! impl_div_for_primitive {
             type Output = BigDecimal;
 
             fn div(self, denom: BigDecimal) -> BigDecimal {
+                if denom.is_zero() {
+                    panic!("Division by zero");
+                }
                 if self.is_one() {
                     denom.inverse()
                 } else {
@@ -387,6 +390,9 @@ macro_rules! impl_div_for_primitive {
             type Output = BigDecimal;
 
             fn div(self, denom: BigDecimal) -> Self::Output {
+                if denom.is_zero() {
+                    panic!("Division by zero");
+                }
                 if !self.is_normal() {
                     BigDecimal::zero()
                 } else if self.is_one() {
@@ -401,6 +407,9 @@ macro_rules! impl_div_for_primitive {
             type Output = BigDecimal;
 
             fn div(self, denom: &BigDecimal) -> Self::Output {
+                if denom.is_zero() {
+                    panic!("Division by zero");
+                }
                 if !self.is_normal() {
                     BigDecimal::zero()
                 } else if self.is_one() {
